@@ -9,7 +9,7 @@
 (* [k, lits, w, rhs, weight] with weight = 0 for a hard constraint.         *)
 (* Events: "solve" (constraint API), "optimal" (WCNF route), crash/timeout. *)
 (***************************************************************************)
-EXTENDS Logic, TLC, Json, IOUtils
+EXTENDS Formats, Json, IOUtils
 
 Cases == ndJsonDeserialize(IOEnv.VERIF_TRACE)
 OutFile == IOEnv.VERIF_OUT
@@ -21,18 +21,26 @@ Case == Cases[ci]
 Ev == Case.ev[ei]
 N == Case.n
 
-HardIdx(c) == {i \in 1..Len(c.cons) : c.cons[i].weight = 0}
-SoftIdx(c) == {i \in 1..Len(c.cons) : c.cons[i].weight # 0}
-HardModels(c) == {a \in Assignments(c.n) : \A i \in HardIdx(c) : SatC(a, AsWritten(c.cons[i]))}
+(* the constraints of a case: given as constructor records, or - for a text enumerated by         *)
+(* FormatsGen.tla - what the reference reader of Formats.tla reads from its tokens               *)
+IsText(c) == Len(c.ts) > 0
+ConsOf(c) == IF IsText(c) THEN WcnfRead(c.n, c.m, c.withTop, c.ts).cons ELSE c.cons
+HardIdx(c) == {i \in 1..Len(ConsOf(c)) : ConsOf(c)[i].weight = 0}
+SoftIdx(c) == {i \in 1..Len(ConsOf(c)) : ConsOf(c)[i].weight # 0}
+HardModels(c) == {a \in Assignments(c.n) : \A i \in HardIdx(c) : SatC(a, AsWritten(ConsOf(c)[i]))}
 (* weight of the soft constraints violated by a *)
 RECURSIVE ViolFrom(_, _, _)
-ViolFrom(c, a, i) == IF i > Len(c.cons) THEN 0
-                     ELSE (IF c.cons[i].weight # 0 /\ ~SatC(a, AsWritten(c.cons[i])) THEN c.cons[i].weight ELSE 0)
-                          + ViolFrom(c, a, i + 1)
-Viol(a) == ViolFrom(Case, a, 1)
+ViolFrom(cs, a, i) == IF i > Len(cs) THEN 0
+                      ELSE (IF cs[i].weight # 0 /\ ~SatC(a, AsWritten(cs[i])) THEN cs[i].weight ELSE 0)
+                           + ViolFrom(cs, a, i + 1)
+Viol(a) == ViolFrom(ConsOf(Case), a, 1)
 Optimum == CHOOSE k \in {Viol(m) : m \in hardM} : \A m \in hardM : Viol(m) >= k
 
-Used == UNION {{VarOf(Case.cons[i].lits[j]) : j \in 1..Len(Case.cons[i].lits)} : i \in 1..Len(Case.cons)}
+Used == UNION {{VarOf(ConsOf(Case)[i].lits[j]) : j \in 1..Len(ConsOf(Case)[i].lits)} : i \in 1..Len(ConsOf(Case))}
+TextWhy == IF ~IsText(Case) THEN ""
+           ELSE IF ~WcnfRead(Case.n, Case.m, Case.withTop, Case.ts).wf THEN "harness:text-not-well-formed"
+           ELSE IF Case.text # WcnfText(Case.n, Case.m, Case.withTop, Case.ts) THEN "harness:text-not-the-rendering-of-its-tokens"
+           ELSE ""
 
 (* assignments over 1..N that agree with the reported bindings dom[i] |-> val[i] *)
 Agree(dom, val) == {a \in Assignments(N) : \A i \in 1..Len(dom) : a[dom[i]] = val[i]}
@@ -71,7 +79,7 @@ StreamWhy(e) ==
   ELSE ""
 
 Why == CASE Ev.op = "solve"   -> SolveWhy(Ev)
-         [] Ev.op = "optimal" -> IF ResWhy(Ev, TRUE) # "" THEN ResWhy(Ev, TRUE) ELSE StreamWhy(Ev)
+         [] Ev.op = "optimal" -> IF TextWhy # "" THEN TextWhy ELSE IF ResWhy(Ev, TRUE) # "" THEN ResWhy(Ev, TRUE) ELSE StreamWhy(Ev)
          [] Ev.op = "skip"    -> ""
          [] Ev.op = "crash"   -> "crash"
          [] Ev.op = "timeout" -> "timeout"
